@@ -12,7 +12,7 @@ META = {
     "text": "B1: TLC explores the runner design from every instance (sorted matching-scale order types incl. ties, origin in any patch, 1-2 targets incl. on walls and at the origin, every processing order of the recipe set) and checks that each stored word is the reversed matched path, each needed part is computed exactly once and is stored before it is used. B2/B3: the same instance space (sampled; exhaustive for 1 target in thorough) is turned into concrete cards and solved by the real managed runner with parts replaced by generators of a free monoid of integer matrices; the harness decodes the stored operators back into words and records calls, retrievals and archive listings; TLC evaluates the C02 clauses on each record and compares the recipes with the spec.",
     "note": "Parts are synthetic (the order-sensitive assembly is what C02 states; numerical content of parts is the subject of other properties). Matching scales in any order (ties allowed; 30% of the real instances unsorted, and in 30% two scales differ only by a relative 1e-7); the TLC design run uses sorted scales, the path semantics for unsorted ones is covered exhaustively by Atlas (C19). All scales finite and positive; nf 3..6.",
     "design_ref": "4.5, 5 C02",
-    "rule": "instance = (3 matching-scale tokens, origin (scale,nf), 1-3 targets); distinct by the token tuple; non-trivial = some target path has >= 2 segments",
+    "rule": "instance = (3 matching-scale tokens, origin (scale,nf), 1-5 targets); distinct by the token tuple; non-trivial = some target path has >= 2 segments",
 }
 
 CLIFF = "intermediate-only"
@@ -33,7 +33,12 @@ def _solve(args):
         else:
             sib["targets"][0][1] = rng.choice([n for n in (3, 4, 5, 6) if n != sib["targets"][0][1]])
         runner.solve_synthetic(sib, tab)
-    return runner.solve_synthetic(inst, tab)
+    # LO or NLO cards, matching ratios one or powers of two (the matching scales themselves stay where they are)
+    order = (1, 0) if rng.random() < 0.5 else (2, 0)
+    ratios = [rng.choice([0.5, 2.0, 4.0]) for _ in range(3)] if rng.random() < 0.5 else None
+    rec = runner.solve_synthetic(inst, tab, order=order, ratios=ratios)
+    rec["cards"] = {"order": list(order), "ratios": [str(k) for k in (ratios or [1.0, 1.0, 1.0])], "seed": seed}
+    return rec
 
 
 def run(chk):
@@ -43,9 +48,9 @@ def run(chk):
     insts = []
     if chk.thorough():
         insts += list(rc.all_instances((1, 2, 3, 4), 1))
-        insts += [rc.random_instance(chk.rng, unsorted=0.3) for _ in range(12000)]
+        insts += [rc.random_instance(chk.rng, unsorted=0.3, max_targets=5) for _ in range(12000)]
     else:
-        insts += [rc.random_instance(chk.rng, unsorted=0.3) for _ in range(1500)]
+        insts += [rc.random_instance(chk.rng, unsorted=0.3, max_targets=5) for _ in range(1500)]
     seeds = [chk.rng.randrange(2**31) for _ in insts]
     with mp.get_context("fork").Pool(16) as pool:
         recs = pool.map(_solve, list(zip(seeds, insts)), chunksize=16)
